@@ -255,6 +255,32 @@ inline void plantInfeasible(const GenOpt& g, LP& lp, Planted& pl)
 inline void plantUnbounded(const GenOpt& g, LP& lp, Planted& pl)
 {
    int m = lp.m(), n = lp.n();
+   // 25%: unboundedness through a 'dual infeasibility gadget' that presolve can detect by itself: two column singletons
+   // in one row, u >= 0 and w <= 0 with equal coefficients; moving u up and w down by the same amount keeps the row
+   // activity and improves the objective (their costs bound the row's dual variable contradictorily)
+   if(m >= 1 && P(25))
+   {
+      int i = R(0, m - 1);
+      // each singleton alone must be held back (u by the row side it pushes against, w by its bound), so that only the
+      // combination is a ray: alpha > 0 needs a finite rhs, alpha < 0 a finite lhs; w's cost pulls it towards its bound 0
+      bool finR = isFin(lp.rhs[i]), finL = isFin(lp.lhs[i]);
+      Q alpha = Q(R(1, 3));
+      if(finR && finL) alpha = P(50) ? alpha : Q(-alpha);
+      else if(finL) alpha = -alpha;
+      Q cw = Q(lp.sense) * Q(R(1, 3)), cu = cw + Q(lp.sense) * Q(R(1, 3));
+      lp.addCol(Q(0), QINF(), cu);
+      lp.addCol(-QINF(), Q(0), cw);
+      lp.A[i][n] = alpha;
+      lp.A[i][n + 1] = alpha;
+      pl.x.resize(n + 2, Q(0));
+      pl.cls = CL_UNB;
+      pl.ray.assign(n + 2, Q(0));
+      pl.ray[n] = 1;
+      pl.ray[n + 1] = -1;
+      pl.y.clear();
+      pl.d.clear();
+      return;
+   }
    std::vector<Q> r(n, Q(0));
    int k = R(1, std::min(n, 3));
    for(int t = 0; t < k; t++) r[R(0, n - 1)] = NZ(3);
